@@ -210,23 +210,23 @@ def run_case(case, base, rng, stats):
     old_argv, old_cwd = sys.argv, os.getcwd()
     sys.argv = argv
     os.chdir(work)
-    REC = []
     c = None
     try:
         c = InsightsConfig()
+        REC = []                      # observe load_all() only, not the constructor's own imply / validate
         try:
             res = c.load_all()
             if res is not c:
                 c = res
             REC.append({"ev": "final", "cfg": snapshot(c)})
-        except ValueError as ex:
+        except Exception as ex:       # ValueError is the documented refusal; anything else is recorded as a crash
             stage = "validate" if any(e["ev"] == "implied" for e in REC) else \
                     "imply" if any(e["ev"] == "loaded" for e in REC) else "load"
             REC.append({"ev": "error", "stage": stage, "kind": type(ex).__name__})
         except SystemExit:
             raise HarnessError("argparse refused %r" % (argv,))
     finally:
-        events, REC = REC, None
+        events, REC = REC or [], None
         sys.argv = old_argv
         os.chdir(old_cwd)
         for r in env:
